@@ -19,12 +19,23 @@ def main():
     from harness import dsl
     scs = json.load(open(src))
     out = []
+    fails = []
     for i, sc in enumerate(scs):
         if junk_mode:
             junk.append([object() for _ in range((i * 7919) % 613)])
-        tr, info = dsl.run_scenario(sc)
+        mons = [m for m in os.environ.get('VERIF_MONITORS', '').split(',') if m]
+        if mons:
+            from harness import monitors
+            probes = []
+            tr, info = dsl.run_scenario(sc, budget=4000, probes=probes)
+            info['probes'] = probes
+            for m in mons:
+                for expl, finding in monitors.MONITORS[m](sc, tr, probes, info):
+                    fails.append([i, m, expl, finding])
+        else:
+            tr, info = dsl.run_scenario(sc)
         out.append(tr)
-    json.dump({'traces': out, 'debug': __debug__, 'waitq': os.environ.get('USIM_WAITQUEUE', ''),
+    json.dump({'traces': out, 'monitor_failures': fails, 'debug': __debug__, 'waitq': os.environ.get('USIM_WAITQUEUE', ''),
                'hashseed': os.environ.get('PYTHONHASHSEED', '')}, open(dst, 'w'))
 
 
